@@ -40,7 +40,7 @@ HDECL = 'struct Position; int spec_occurrences(const struct Position *p); _Bool 
 WFH = 'wf_pos(self) && self->_history_counter >= 1 && self->_history_counter <= 800'
 
 C = {
-    CHK: '__CPROVER_requires(wf_pos(self) && sp_is(self, &G_P0) && side <= 1)\n__CPROVER_assigns()\n__CPROVER_ensures(__CPROVER_return_value == sp_in_check(G_P0.board, side))\n',
+    CHK: '__CPROVER_requires(wf_pos(self) && sp_is(self, &G_P0) && side <= 1 && !sp_in_check(G_P0.board, 1 - G_P0.side))\n__CPROVER_assigns()\n__CPROVER_ensures(__CPROVER_return_value == sp_in_check(G_P0.board, side))\n',
     R50: '__CPROVER_requires(wf_pos(self))\n__CPROVER_assigns()\n__CPROVER_ensures(__CPROVER_return_value == (self->_half_move_counter >= 100))\n',
     ENO: '__CPROVER_requires(wf_pos(self))\n__CPROVER_assigns()\n__CPROVER_ensures(__CPROVER_return_value == !spec_insufficient(self))\n',
     REP: '__CPROVER_requires(%s)\n__CPROVER_assigns()\n__CPROVER_ensures(__CPROVER_return_value == (spec_occurrences(self) >= 1))\n' % WFH,
@@ -72,19 +72,55 @@ def jobs(tier, seed):
     h = ND + ('void h_c(void) { struct Position P = nondet_Position(); uint32_t s = nondet_u32(); sp_of(&P, &G_P0); W_P = P; W_side = s;\n'
               '  for (uint32_t q = 0; q < 64; q++) KNIGHT_MASK[q] = spec_knight(q);   /* C11: geom/rays_masks */\n'
               '  %s(&P, s);' % CHK + CANARY + '}\n')
-    out.append(Job('is_in_check', TUS7, [CHK], h, 'h_c', contracts=dict(SL, **{CHK: C[CHK]}), nobody=list(SL), enforce=CHK, replace=list(SL),
+    out.append(Job('is_in_check', TUS7, [CHK], h, 'h_c', contracts=dict({k: SL[k] for k in ('slider_attack_3', 'slider_attack_4')}, **{CHK: C[CHK]}), nobody=['slider_attack_3', 'slider_attack_4'], enforce=CHK, replace=['slider_attack_3', 'slider_attack_4'],
                    timeout=1800, replay=REPLAY_CHK, note='is_in_check(side) == own king attacked under the mailbox rules', **common))
-    for fn, nm, extra in ((R50, 'rule50', {}), (ENO, 'enough_material', dict(unwindset=loops_unwind([('verif_find', 6)]))),
-                          (REP, 'is_repeated', dict(unwindset=loops_unwind([('Position__is_repeated', 801)]), replay=REPLAY_HIST,
-                                                    route='closed-by-complete-unwinding(801): the key history has 800 slots')),
-                          (TF, 'threefold_repetition', dict(unwindset=loops_unwind([('Position__threefold_repetition', 801)]), replay=REPLAY_HIST,
-                                                            route='closed-by-complete-unwinding(801): the key history has 800 slots')),
-                          (DRW, 'is_draw', dict(unwindset=loops_unwind([('Position__threefold_repetition', 801), ('verif_find', 6)]),
-                                                route='closed-by-complete-unwinding(801 / 6)'))):
+    for fn, nm, extra in ((R50, 'rule50', {}), (ENO, 'enough_material', dict(unwindset=loops_unwind([('verif_find', 6)])))):
         h = ND + 'void h_p(void) { struct Position P = nondet_Position(); W_P = P; %s(&P);' % fn + CANARY + '}\n'
-        common2 = dict(common); common2['post_spec'] = POST
-        j = Job(nm, TUS7, [fn], h, 'h_p', contracts={fn: C[fn]}, enforce=fn, timeout=1800, note=nm + ' == its rule-level meaning', **dict(common2, **extra))
-        j.pre_text = HDECL
+        j = Job(nm, TUS7, [fn], h, 'h_p', contracts={fn: C[fn]}, enforce=fn, timeout=1800, note=nm + ' == its rule-level meaning', **dict(common, **extra))
         j.harness = HSPEC + j.harness
         out.append(j)
+    # history scans under loop contracts (unbounded), both directions stated through ghosts instead of a count:
+    #   G_TWO : two distinct earlier entries G_I < G_J equal the key   =>  threefold (and is_repeated) must answer true
+    #   G_ONE : one earlier entry G_I equals the key                    =>  is_repeated must answer true
+    #   G_AM1 : every earlier entry except possibly G_ONLY differs      =>  threefold must answer false
+    #   G_NONE: every earlier entry differs                             =>  is_repeated must answer false
+    HG = ('int G_I, G_J, G_ONLY; _Bool G_TWO, G_ONE, G_AM1, G_NONE;\n')
+    KEYS = '(self->_zobrist_hash._piece_key ^ self->_zobrist_hash._pawn_key ^ self->_zobrist_hash._enpassant_key ^ self->_zobrist_hash._castling_key ^ self->_zobrist_hash._color_key)'
+    GHREQ = ('__CPROVER_requires(self->_history_counter >= 1 && self->_history_counter <= 800)\n'
+             '__CPROVER_requires(G_TWO ==> (0 <= G_I && G_I < G_J && G_J <= self->_history_counter - 2 && self->_history[G_I] == %s && self->_history[G_J] == %s))\n' % (KEYS, KEYS) +
+             '__CPROVER_requires(G_ONE ==> (0 <= G_I && G_I <= self->_history_counter - 2 && self->_history[G_I] == %s))\n' % KEYS +
+             '__CPROVER_requires(G_AM1 ==> spec_all_differ_but(self, G_ONLY))\n'
+             '__CPROVER_requires(G_NONE ==> spec_all_differ_but(self, -1))\n__CPROVER_assigns()\n')
+    c_rep = GHREQ + '__CPROVER_ensures((G_ONE || G_TWO) ==> __CPROVER_return_value)\n__CPROVER_ensures(G_NONE ==> !__CPROVER_return_value)\n'
+    c_tf = GHREQ + '__CPROVER_ensures(G_TWO ==> __CPROVER_return_value)\n__CPROVER_ensures((G_AM1 || G_NONE) ==> !__CPROVER_return_value)\n'
+    c_drw = ('__CPROVER_requires(wf_pos(self))\n' + GHREQ +
+             '__CPROVER_ensures((G_TWO || self->_half_move_counter >= 100 || spec_insufficient(self)) ==> __CPROVER_return_value)\n'
+             '__CPROVER_ensures(((G_AM1 || G_NONE) && self->_half_move_counter < 100 && !spec_insufficient(self)) ==> !__CPROVER_return_value)\n')
+    lc_rep = {(REP, 1): ['__CPROVER_assigns(i)', '__CPROVER_loop_invariant(-1 <= i && i <= self->_history_counter - 2)',
+                         '__CPROVER_loop_invariant((G_ONE || G_TWO) ==> G_I <= i)', '__CPROVER_decreases(i + 1)']}
+    lc_tf = {(TF, 1): ['__CPROVER_assigns(i, count)', '__CPROVER_loop_invariant(-1 <= i && i <= self->_history_counter - 2 && 1 <= count && count <= 2)',
+                       '__CPROVER_loop_invariant(G_TWO ==> count >= 1 + (G_J > i ? 1 : 0) + (G_I > i ? 1 : 0))',
+                       '__CPROVER_loop_invariant(G_AM1 ==> count <= 1 + (G_ONLY > i ? 1 : 0))', '__CPROVER_loop_invariant(G_NONE ==> count == 1)', '__CPROVER_decreases(i + 1)']}
+    ALLD = '''
+/* every earlier entry of the key history, except index `but` (use -1 for none), differs from the current key */
+_Bool spec_all_differ_but(const struct Position *p, int but)
+{ _Bool ok = 1; uint64_t key = %s; for (int i = 0; i < 800; i++) ok = ok && (i > p->_history_counter - 2 || i == but || p->_history[i] != key); return ok; }
+''' % KEYX
+    hdecl2 = HDECL + HG + 'struct Position; _Bool spec_all_differ_but(const struct Position *p, int but);\n'
+    # is_draw over the three contracts (no loop left in the query)
+    h = HSPEC + ALLD + ND + ('void h_h(void) { struct Position P = nondet_Position(); W_P = P;\n'
+                             '  G_I = nondet_int(); G_J = nondet_int(); G_ONLY = nondet_int(); G_TWO = nondet_bool(); G_ONE = nondet_bool(); G_AM1 = nondet_bool(); G_NONE = nondet_bool();\n'
+                             '  %s(&P);' % DRW + CANARY + '}\n')
+    kwd = dict(common); kwd['pre_text'] = hdecl2
+    out.append(Job('is_draw', TUS7, [DRW], h, 'h_h', contracts={DRW: c_drw, TF: c_tf, R50: C[R50], ENO: C[ENO]}, nobody=[TF, R50, ENO], enforce=DRW, replace=[TF, R50, ENO],
+                   timeout=1200, note='is_draw == fifty-move rule or threefold repetition or insufficient material, over the contracts of the three predicates', **kwd))
+    for fn, nm, cc, lc in ((REP, 'is_repeated', c_rep, lc_rep), (TF, 'threefold_repetition', c_tf, lc_tf)):
+        h = HSPEC + ALLD + ND + ('void h_h(void) { struct Position P = nondet_Position(); W_P = P;\n'
+                                 '  G_I = nondet_int(); G_J = nondet_int(); G_ONLY = nondet_int(); G_TWO = nondet_bool(); G_ONE = nondet_bool(); G_AM1 = nondet_bool(); G_NONE = nondet_bool();\n'
+                                 '  %s(&P);' % fn + CANARY + '}\n')
+        kw = dict(common); kw['pre_text'] = hdecl2
+        extra = dict(unwindset=loops_unwind([('verif_find', 6)])) if nm == 'is_draw' else {}
+        out.append(Job(nm, TUS7, [fn], h, 'h_h', contracts={fn: cc}, loopc=lc, enforce=fn, loop_contracts=True, timeout=2400, expect=['loop_invariant_step'],
+                       replay=REPLAY_HIST if nm != 'is_draw' else None, route='loop contract (unbounded): the scan of the key history',
+                       note=nm + ': answers true when the ghost-witnessed earlier occurrences exist, false when all earlier entries (but at most one) differ - all earlier positions are scanned', **dict(kw, **extra)))
     return out
